@@ -17,7 +17,8 @@
 EXTENDS Naturals, FiniteSets, Sequences
 
 Protos == {"PYRO", "PYRONAME", "PYROMETA", "other"}
-Objs == {"plain", "with_at", "punct", "tags2", "tags_dup", "tags_with_empty", "tags_only_empty"}
+\* lead_at: the object (or the first tag) begins with an at-sign
+Objs == {"plain", "with_at", "punct", "tags2", "tags_dup", "tags_with_empty", "tags_only_empty", "lead_at"}
 Locs == {"none", "host", "emptyhost", "ipv4", "v6", "v6_double", "v6_bad", "unix", "unix_empty", "unix_colon"}
 Ports == {"none", "dec", "zeros", "plus", "spaces", "underscore", "unidigits", "negative", "nonnum", "empty"}
 Texts == [proto : Protos, obj : Objs, loc : Locs, port : Ports]
